@@ -1,5 +1,6 @@
 import GA.Drv.Iterq
 import GA.Drv.LayoutE
+import GA.Drv.OwnE
 open GA.Drv
 
 def answerLine (line : String) : String :=
@@ -9,6 +10,7 @@ def answerLine (line : String) : String :=
     let body := match engine with
       | "iterq" => Iterq.answer kv
       | "layout" => LayoutE.answer kv
+      | "own" => OwnE.answer kv
       | _ => "bad-engine"
     s!"{seq} {body}"
   | _ => "bad-line"
